@@ -241,10 +241,47 @@ def r3_std(ctx):
                             ctx.violation("C19.R3", f, st, "the proposal scale is written outside _update_std and construction")
 
 
+def r4_configuration_reaches_object(ctx):
+    """'by exactly the configured factor', 'the configured temperature schedule': a constructor parameter that is accepted and then neither
+    used nor handed to the base constructor is silently replaced by the base's default."""
+    ctx.rule("C19.R4", "every constructor parameter of the samplers / annealing / sampler-owning algorithms is used or forwarded (no configured value silently replaced by a default)", 8)
+    ix = ctx.ix
+    n = 0
+    for f in ix.iter_funcs():
+        if f.name != "__init__" or f.cls is None or not (f.mod.startswith("leaspy.samplers") or f.mod.startswith("leaspy.algo")):
+            continue
+        a = f.node.args
+        ps = [p.arg for p in a.posonlyargs + a.args + a.kwonlyargs][1:]
+        if not ps:
+            continue
+        used = {x.id for x in ast.walk(f.node) if isinstance(x, ast.Name) and isinstance(x.ctx, ast.Load)}
+        unused = [p for p in ps if p not in used]
+        n += 1
+        ctx.check(not unused, "C19.R4", f, f.node, f"parameters {ps} are all read", f"constructor parameter(s) {unused} are accepted but never used nor forwarded: the configured value is dropped "
+                  "and the base class's default applies", construct=f"{f.qual} parameters")
+        # forwarding keeps the value: super().__init__(p=<expression of p>)
+        for c in ast.walk(f.node):
+            if isinstance(c, ast.Call) and isinstance(c.func, ast.Attribute) and c.func.attr == "__init__" and isinstance(c.func.value, ast.Call) and U(c.func.value.func) == "super":
+                for k in c.keywords:
+                    if k.arg in ps and not any(isinstance(x, ast.Name) and x.id == k.arg for x in ast.walk(k.value)):
+                        ctx.violation("C19.R4", f, k.value, f"`{k.arg}={U(k.value)[:40]}` is handed to the base constructor instead of the configured `{k.arg}`", construct=f"{f.qual} forwards {k.arg}")
+    # the attributes the adaptation reads are the ones the constructor stored from the parameters of the same name
+    g = ix.func("leaspy.samplers.gibbs", "GibbsSamplerMixin._set_adaptive_std_factor", "C19.R4")
+    from ..astq import Canon
+    gl = Canon(g.node).lines(True, True)
+    ctx.check("$0._adaptive_std_factor = $1" in gl, "C19.R4", g, g.node, "the adaptation factor stored is the configured one", "the adaptation factor stored is not the configured value", construct="factor stored")
+    init = ix.func("leaspy.samplers.gibbs", "GibbsSamplerMixin.__init__", "C19.R4")
+    il = " ".join(Canon(init.node).lines(True, True))
+    pm = Canon(init.node).pmap
+    ok = f"$0._set_adaptive_std_factor({pm.get('adaptive_std_factor')})" in il
+    ctx.check(ok, "C19.R4", init, init.node, "the mixin validates and stores the configured factor", "the mixin no longer stores the configured adaptation factor", construct="factor handed to the setter")
+
+
 def rules(ctx):
     r1_divisor(ctx)
     r2_temperature(ctx)
     r3_std(ctx)
+    r4_configuration_reaches_object(ctx)
     ctx.assume("acceptation_history_length is a positive integer (documented precondition)")
     ctx.trust("Python int floor-division / modulo semantics")
 
